@@ -1,7 +1,7 @@
 """C04 - a stalled synchronized consumer stalls its producers: bounded buffering (E1, profile TIMELY(100))."""
 
 from mc import explore
-from . import topo
+from . import topo, e2part
 
 BASES = ['fifo', 'asc', 'desc', 'lifo']
 
@@ -26,6 +26,8 @@ def run(rep):
     if not quick:
         core = [s for s in fam if '/k2/' in s['name'] and 'S1500' in s['name']]
         explore.explore(rep, 'core-d2', core, 2, ['fifo'], 'checks.oracles:oracle_c04', budget_s=1500)
+
+    e2part.run_e2(rep, 'C04')
 
     rep.set('traces_validated_against_impl', rep.coverage.get('evaluations', 0))
     rep.set('distinct_nontrivial', rep.coverage.get('distinct_outcomes', 0))
